@@ -461,33 +461,53 @@ def corpus():
 
 
 # ----------------------------------------------------------------- decision
-def judge(ck, case, im):
-    """model-independent verdicts on the implementation's observations"""
+def judge(case, im):
+    """model-independent verdicts on the implementation's observations: a list of failures
+    {key, what, case, observed, expected} (at most one per history — the first one)"""
+    def f(key, what, observed, expected):
+        return [{"key": key, "what": what, "case": case, "observed": observed, "expected": expected}]
+
     if case.get("kind") == "axes":
         if im.get("out") == "ok" and im["viol"] != "valid":
-            ck.fail(f"C07:invalid-object:{im['viol']}", f"axes_from_lists returned an axis violating '{im['viol']}'",
-                    case, im, "valid axes or an exception")
-        return
+            return f(f"C07:invalid-object:{im['viol']}", f"axes_from_lists returned an axis violating '{im['viol']}'",
+                     im, "valid axes or an exception")
+        return []
     if im.get("init") != "ok":
-        return
+        return []
     if im["obj"]["viol"] != "valid":
-        ck.fail(f"C07:invalid-object:{im['obj']['viol']}",
-                f"an object obtained by {case['init']['k']} violates '{im['obj']['viol']}'", case, im["obj"], "valid")
-        return
+        return f(f"C07:invalid-object:{im['obj']['viol']}",
+                 f"an object obtained by {case['init']['k']} violates '{im['obj']['viol']}'", im["obj"], "valid")
     for i, st in enumerate(im["steps"]):
         op = case["ops"][i]
         if st["out"] != "ok" and st["arg_changed"]:
             what = "assignment" if op["k"] == "assign" else op["k"]
-            ck.fail(f"C07:failed-{what}-mutates-object",
-                    f"step {i} ({op['k']} {op.get('f', '')}) raised {st['out']} but the object is no longer what it was",
-                    case, {"step": i, "out": st["out"], "before": st.get("arg_before"), "after": st.get("arg_after")},
-                    "object unchanged after a failed operation")
-            return
+            return f(f"C07:failed-{what}-mutates-object",
+                     f"step {i} ({op['k']} {op.get('f', '')}) raised {st['out']} but the object is no longer what it was",
+                     {"step": i, "out": st["out"], "before": st.get("arg_before"), "after": st.get("arg_after")},
+                     "object unchanged after a failed operation")
         if st["viol"] != "valid":
-            ck.fail(f"C07:invalid-object:{st['viol']}",
-                    f"after step {i} ({op['k']} {op.get('f', '')}, outcome {st['out']}) the object violates '{st['viol']}'",
-                    case, {"step": i, **st}, "valid")
-            return
+            return f(f"C07:invalid-object:{st['viol']}",
+                     f"after step {i} ({op['k']} {op.get('f', '')}, outcome {st['out']}) the object violates '{st['viol']}'",
+                     {"step": i, **st}, "valid")
+    return []
+
+
+def shrink(fail):
+    """delta-debug the history: drop operations while the same class of failure persists"""
+    case, key = fail["case"], fail["key"]
+    if case.get("kind") == "axes" or not case.get("ops"):
+        return fail
+    cur, best = case, fail
+    changed = True
+    while changed and len(cur["ops"]) > 0:
+        changed = False
+        for i in range(len(cur["ops"]) - 1, -1, -1):
+            cand = {**cur, "ops": cur["ops"][:i] + cur["ops"][i + 1:]}
+            got = [x for x in judge(cand, impl_obs(cand)) if x["key"] == key]
+            if got:
+                cur, best, changed = cand, got[0], True
+                break
+    return best
 
 
 def compare(ck, case, im, mo):
@@ -598,11 +618,16 @@ def run(ck: common.Check):
                 ck.corr_broken("C07:lean-spec-on-observed-dump", cases[idx], {"viol": o["viol"]}, {"viol": sv["viol"]})
         ck.extra["lean_spec_evaluations_on_observed_dumps"] = n_s
     nsteps = 0
+    shrunk: set = set()
     for idx, (c, im) in enumerate(zip(cases, impl)):
         ck.case({k: v for k, v in c.items() if k in ("init", "ops", "kind", "args")}, tag_of(c, im),
                 nontrivial=bool(c.get("ops")) or c.get("kind") == "axes" or im.get("init") != "ok")
         nsteps += len(im.get("steps", []))
-        judge(ck, c, im)
+        for fl in judge(c, im):
+            if fl["key"] not in shrunk:
+                shrunk.add(fl["key"])
+                fl = shrink(fl)
+            ck.fail(fl["key"], fl["what"], fl["case"], fl["observed"], fl["expected"])
         if model is not None and not c.get("gray"):
             compare(ck, c, im, model[idx])
     ck.extra["steps_observed"] = nsteps
@@ -630,17 +655,8 @@ def replay(rp):
     c = rp["case"]
     im = impl_obs(c)
     print(json.dumps({"case": c, "impl": im}, default=str)[:6000])
-
-    class _Ck:
-        failures: list = []
-
-        def fail(self, key, what, case, observed=None, expected=None):
-            self.failures.append((key, what))
-
-    ck = _Ck()
-    ck.failures = []
-    judge(ck, c, im)
-    for key, what in ck.failures:
-        print(f"  [{key}] {what}")
-    print("REPLAY: property FAILS on this input" if ck.failures else "REPLAY: property holds on this input")
-    return 1 if ck.failures else 0
+    fails = judge(c, im)
+    for fl in fails:
+        print(f"  [{fl['key']}] {fl['what']}")
+    print("REPLAY: property FAILS on this input" if fails else "REPLAY: property holds on this input")
+    return 1 if fails else 0
